@@ -3,5 +3,5 @@ From Coq Require Import ZArith.
 Require Import ExtrOcamlBasic.
 Extraction Language OCaml.
 Extraction "model.ml" tokenize kind_code tok_lit lex parse_bytes tokenize_limits print_doc
-  doc_depth doc_fields limits_ok_b ranges_ok_b roundtrip_ok_b string_stable_b description_stable_b
+  doc_depth doc_fields depth_sum max_depth_inlined limits_ok_b ranges_ok_b roundtrip_ok_b string_stable_b description_stable_b
   doc_strings_stable_b lex_print_ok_b wf_doc Z.add Nat.add.
